@@ -710,6 +710,13 @@ func (s *State) applyFunction(name string, fn object.Object, args []object.Objec
 	if !ok {
 		return s.NewError("not a function: " + fn.Type().String() + ":" + fn.Inspect())
 	}
+	if s.rootEnv != nil {
+		// Results were computed with the top level functions and constants of their time: start over if any changed.
+		if epoch := s.rootEnv.CacheEpoch(); epoch != s.cacheEpoch {
+			s.cache = NewCache()
+			s.cacheEpoch = epoch
+		}
+	}
 	if v, output, ok := s.cache.Get(function.CacheKey, args); ok {
 		log.Debugf("Cache hit for %s %v -> %#v", function.CacheKey, args, v)
 		if len(output) > 0 {
